@@ -251,6 +251,42 @@ pub fn write_replay<P: Prop>(p: &P, case: &P::Case, msg: &str, seed: u64) -> Str
     path.to_string_lossy().to_string()
 }
 
+/// Structural minimisation of a failing case; a candidate must fail twice in a row to be accepted,
+/// so that a failure that depends on real thread timing does not shrink into an unrelated case.
+pub fn structural_minimise<P: Prop>(
+    p: &P,
+    mut case: P::Case,
+    mut msg: String,
+    lane: usize,
+    known: &Known,
+) -> (P::Case, String) {
+    let mut budget = 3000usize;
+    let mut scratch = Stats::default();
+    let fails = |c: &P::Case, scratch: &mut Stats| -> Option<String> {
+        match guarded_check(p, c, lane, scratch) {
+            Ok(Err(f)) if known.matches(p.property(), &f).is_none() => Some(f.msg),
+            _ => None,
+        }
+    };
+    'outer: loop {
+        for cand in p.simplify(&case) {
+            if budget == 0 {
+                break 'outer;
+            }
+            budget -= 1;
+            if let Some(m1) = fails(&cand, &mut scratch) {
+                if fails(&cand, &mut scratch).is_some() {
+                    case = cand;
+                    msg = m1;
+                    continue 'outer;
+                }
+            }
+        }
+        break;
+    }
+    (case, msg)
+}
+
 pub fn drive<P: Prop>(p: &P, cases: usize, lanes: usize, seed: u64, known: &Known) -> SubResult {
     let t0 = Instant::now();
     let stop = AtomicBool::new(false);
@@ -335,10 +371,9 @@ pub fn drive<P: Prop>(p: &P, cases: usize, lanes: usize, seed: u64, known: &Know
                         let mut src = Src::new(&stream);
                         let mut case = p.gen(&mut src);
                         let mut msg = reason.to_string();
-                        // structural minimisation; a candidate must fail twice in a row to be
-                        // accepted, so that a failure that depends on real thread timing does not
-                        // shrink into an unrelated tiny case
-                        let mut budget = 3000usize;
+                        let (c2, m2) = structural_minimise(p, case, msg, lane, known);
+                        case = c2;
+                        msg = m2;
                         let mut scratch = Stats::default();
                         let fails = |c: &P::Case, scratch: &mut Stats| -> Option<String> {
                             match guarded_check(p, c, lane, scratch) {
@@ -346,22 +381,6 @@ pub fn drive<P: Prop>(p: &P, cases: usize, lanes: usize, seed: u64, known: &Know
                                 _ => None,
                             }
                         };
-                        'outer: loop {
-                            for cand in p.simplify(&case) {
-                                if budget == 0 {
-                                    break 'outer;
-                                }
-                                budget -= 1;
-                                if let Some(m1) = fails(&cand, &mut scratch) {
-                                    if fails(&cand, &mut scratch).is_some() {
-                                        case = cand;
-                                        msg = m1;
-                                        continue 'outer;
-                                    }
-                                }
-                            }
-                            break;
-                        }
                         // the minimal case must still fail when run again (up to 5 tries); otherwise
                         // the first failing case as generated is what gets reported
                         let mut reproduced = false;
@@ -516,7 +535,14 @@ impl<P: Prop> DynProp for P {
     fn dcase_json(&self, stream: &[u16]) -> Value {
         let mut src = Src::new(stream);
         let case = self.gen(&mut src);
-        json!({"property": self.property(), "check": self.name(), "message": "found by the coverage-guided fuzzer", "case": case})
+        // the fuzzer's input is not minimal: run the structural simplifier on the decoded case
+        let known = Known::load_cached();
+        let mut st = Stats::default();
+        let (case, msg) = match guarded_check(self, &case, 0, &mut st) {
+            Ok(Err(f)) => structural_minimise(self, case, f.msg, 0, known),
+            _ => (case, "found by the coverage-guided fuzzer".to_string()),
+        };
+        json!({"property": self.property(), "check": self.name(), "message": msg, "case": case})
     }
 }
 
